@@ -738,3 +738,54 @@ def rule_output(P):
     if n == 0:
         raise AnalysisError(f'{f.fq}: no path on terms')
     return res
+
+
+# ----------------------------------------------------------------------
+# R-PRINTOUT (C19, C14): PRINT in the shell is the compiled statement printed to the shell's output
+
+def rule_printout(P):
+    """BQLShell.on_Print on terms: the statement is compiled once through the connection, and execute_print receives that compiled
+    statement and the file `with self.output as out` yields - nothing else is written, nothing is filtered or sorted here."""
+    from ..report import RuleResult
+    res = RuleResult('R-PRINTOUT')
+    res.exhaustive = True
+    sh = P.module(SH)
+    shell = sh.classes.get('BQLShell')
+    f = shell.methods.get('on_Print') if shell else None
+    if f is None:
+        raise AnalysisError('anchor vanished: BQLShell.on_Print')
+    SELF, ST, COMPILED = Sym('SHELL'), Sym('STATEMENT'), Sym('COMPILED_PRINT')
+
+    def on_call(fn, fv, rc, args, kw, ex, node):
+        name = str(fn)
+        last = name.split('.')[-1]
+        if name.endswith('context.compile'):
+            ex.events.append(('x-compile', tuple(args), tuple(kw)))
+            return COMPILED
+        if last == 'execute_print':
+            ex.events.append(('x-print', tuple(args), tuple(kw)))
+            return None
+        if last == 'print':
+            ex.events.append(('x-write', tuple(args), tuple(kw)))
+            return None
+        return NotImplemented
+    n = 0
+    for p in Engine(P, on_call=on_call, max_depth=2).paths(f, {'self': SELF, f.params[1]: ST}):
+        n += 1
+        comp = [e for e in p.events if e[0] == 'x-compile']
+        prn = [e for e in p.events if e[0] == 'x-print']
+        wr = [e for e in p.events if e[0] == 'x-write']
+        out_ok = len(prn) == 1 and len(prn[0][1]) + len(prn[0][2]) == 2
+        if out_ok:
+            a = list(prn[0][1]) + [v for _, v in prn[0][2]]
+            out_ok = a[0] == COMPILED and isinstance(a[1], T) and a[1].op == 'call' and a[1].args[0] == '__enter__' and \
+                a[1].args[1] == (T('attr', (SELF, 'output')),)
+        if p.decisions or p.outcome == 'raise' or wr or len(comp) != 1 or comp[0][1] != (ST,) or comp[0][2] or not out_ok:
+            what = f'it branches on `{show(p.decisions[0][0])[:50]}`' if p.decisions else f'it writes {[show(x)[:30] for x in wr[0][1]]} itself' if wr else \
+                f'it compiles {[tuple(map(show, e[1])) for e in comp]} and prints {[tuple(show(x)[:40] for x in e[1]) for e in prn]}'
+            res.fail(f.fq, 'printout:flow', f'PRINT in the shell is execute_print(connection.compile(statement), the shell output): {what}', loc(f))
+        else:
+            res.ok({'handler': f.fq, 'prints': 'execute_print(self.context.compile(statement), out) inside `with self.output as out`'})
+    if n == 0:
+        raise AnalysisError(f'{f.fq}: no path on terms')
+    return res
